@@ -76,6 +76,11 @@ def _ops():
     o["mktrend_nd"] = ("mk_nd", lambda d, c: d.hdc.algo.mktrend())
     o["mean_grp"] = ("any", lambda d, c: d.hdc.algo.mean_grp([t % 3 for t in range(d.sizes["time"])]))
     o["rolling_sum"] = ("roll", lambda d, c: d.hdc.rolling.sum(3))
+    # optional dtype arguments must mean the same thing for in-memory and dask-backed input
+    o["rolling_sum_f64"] = ("roll", lambda d, c: d.hdc.rolling.sum(3, dtype="float64"))
+    o["rolling_sum_i32"] = ("roll", lambda d, c: d.hdc.rolling.sum(2, dtype="int32"))
+    o["spi_f32"] = ("rain", lambda d, c: d.hdc.algo.spi(dtype="float32"))
+    o["zonal_mean_f64"] = ("zonal", lambda d, c: d.hdc.zonal.mean(_zones(d), [0, 1, 2], dtype="float64", dim_name="zone", name="zm"))
     o["zonal_mean"] = ("zonal", lambda d, c: d.hdc.zonal.mean(_zones(d), [0, 1, 2]))
     o["iteragg_sum"] = ("any", lambda d, c: xr.concat(list(d.hdc.iteragg.sum(3)), "time"))
     o["iteragg_mean"] = ("any", lambda d, c: xr.concat(list(d.hdc.iteragg.mean(2, begin=str(T[d.sizes["time"] - 2].date()))), "time"))
@@ -228,7 +233,7 @@ def sub_joint(case):
 
 
 def sub_pixel_perm(case):
-    if case["op"] in ("zonal_mean",):
+    if case["op"] in ("zonal_mean", "zonal_mean_f64"):
         return
     d = _input(case)
     ny, nx = d.sizes["y"], d.sizes["x"]
@@ -429,7 +434,7 @@ def run(ctx):
         sub_pixel_perm(case)
 
     for op in sorted(_ops()):
-        if op not in ("zonal_mean", "whits_sg", "whitsvc_lc"):
+        if op not in ("zonal_mean", "zonal_mean_f64", "whits_sg", "whitsvc_lc"):
             ctx.given("pixel_perm", cube([op]), ctx.n(3, 25), fn=f_pp, shrink=False)
 
     # thread counts of the prange kernel
